@@ -42,7 +42,7 @@ func descVal(v ssa.Value) string {
 	case *ssa.Parameter:
 		return paramDesc(x)
 	case *ssa.FreeVar:
-		return "freevar:" + x.Name()
+		return freeVarDesc(x)
 	case *ssa.Convert:
 		// byte(x>>8) / byte(x): keep which byte
 		if b, ok := x.Type().Underlying().(*types.Basic); ok && (b.Kind() == types.Uint8) {
@@ -146,6 +146,30 @@ func paramDesc(x *ssa.Parameter) string {
 	return "param:" + x.Name()
 }
 
+// freeVarDesc renders a captured variable by what the enclosing function bound to it.
+func freeVarDesc(x *ssa.FreeVar) string {
+	f := x.Parent()
+	if f == nil {
+		return "freevar:" + x.Name()
+	}
+	idx := -1
+	for i, v := range f.FreeVars {
+		if v == x {
+			idx = i
+		}
+	}
+	if par := f.Parent(); par != nil && idx >= 0 {
+		for _, b := range par.Blocks {
+			for _, in := range b.Instrs {
+				if mc, ok := in.(*ssa.MakeClosure); ok && mc.Fn == ssa.Value(f) && idx < len(mc.Bindings) {
+					return "captured:" + descAddr(mc.Bindings[idx])
+				}
+			}
+		}
+	}
+	return fmt.Sprintf("freevar#%d", idx)
+}
+
 // descVal0 is descVal without following phis (prevents infinite recursion on loops).
 func descVal0(v ssa.Value) string {
 	if _, ok := v.(*ssa.Phi); ok {
@@ -227,7 +251,7 @@ func descAddr(v ssa.Value) string {
 	case *ssa.Parameter:
 		return paramDesc(x)
 	case *ssa.FreeVar:
-		return "freevar:" + x.Name()
+		return freeVarDesc(x)
 	case *ssa.UnOp:
 		if x.Op == token.MUL {
 			return descAddr(x.X)
@@ -615,4 +639,69 @@ func (c *Ctx) returnRule(p *Program, rule, what string, f *ssa.Function, idx int
 		return
 	}
 	c.ok(rule, construct, fmt.Sprintf("%d return(s) match %s", n, want), p.fnPos(f))
+}
+
+// seqRule: the ordered sequence (reverse postorder of the CFG) of calls in f to the listed callees,
+// each rendered as "<method>(<provenance of arg0>, <arg1>, ...)", matches the specification's
+// sequence of patterns. builtin.copy is included only when its destination is a parameter.
+func (c *Ctx) seqRule(p *Program, rule, what string, f *ssa.Function, callees []string, want []string) {
+	if f == nil {
+		c.undecided(rule, what, "anchor function does not resolve", "")
+		return
+	}
+	construct := fname(f) + ": " + what
+	set := map[string]bool{}
+	for _, n := range callees {
+		set[normName(n)] = true
+	}
+	var got []string
+	for _, b := range rpoOrder(f) {
+		for _, in := range b.Instrs {
+			ci, ok := in.(ssa.CallInstruction)
+			if !ok {
+				continue
+			}
+			name := p.staticCalleeName(ci.Common())
+			if !set[normName(name)] {
+				continue
+			}
+			c0 := ci.Common()
+			var args []ssa.Value
+			if c0.IsInvoke() {
+				args = append(args, c0.Value)
+			}
+			args = append(args, c0.Args...)
+			var ds []string
+			for _, a := range args {
+				ds = append(ds, descVal(a))
+			}
+			if name == "builtin.copy" && !strings.HasPrefix(ds[0], "param#") {
+				continue
+			}
+			sh := name
+			if i := strings.LastIndex(sh, "."); i >= 0 {
+				sh = sh[i+1:]
+			}
+			got = append(got, sh+"("+strings.Join(ds, ", ")+")")
+		}
+	}
+	var problems []string
+	if len(got) != len(want) {
+		problems = append(problems, fmt.Sprintf("%d operations, specification has %d", len(got), len(want)))
+	}
+	for i := 0; i < len(got) && i < len(want); i++ {
+		re, err := regexp.Compile("^(?:" + want[i] + ")$")
+		if err != nil {
+			problems = append(problems, "bad pattern "+want[i])
+			continue
+		}
+		if !re.MatchString(got[i]) {
+			problems = append(problems, fmt.Sprintf("step %d is %s, specification requires %s", i+1, got[i], want[i]))
+		}
+	}
+	if len(problems) > 0 {
+		c.bad(rule, construct, strings.Join(problems, "; ")+" [sequence: "+strings.Join(got, " ; ")+"]", p.fnPos(f))
+		return
+	}
+	c.ok(rule, construct, fmt.Sprintf("%d operations match the specification's sequence", len(got)), p.fnPos(f))
 }
